@@ -92,9 +92,15 @@ func NewMultIterator(aps ...*AP) *MultIterator {
 		f, ok := genIterator(m, ap.strides, nBlocks)
 		if !ok {
 			offset = nBlocks * maxDims
-			apStrides, _ := BroadcastStrides(shape, ap.shape, it.strides[offset:offset+maxDims], ap.strides)
-			copy(it.strides[offset:offset+maxDims], apStrides)
-			ReturnInts(apStrides) // Borrowed in BroadcastStrides but returned here - dangerous pattern?
+			if len(ap.strides) == maxDims && Shape(shape).Eq(ap.shape) && len(ap.shape) == maxDims {
+				// same shape as the iteration space: nothing to broadcast, the tensor's own strides apply
+				// (BroadcastStrides keeps only the first stride of a vector, which is wrong for a stepped (1,n) view)
+				copy(it.strides[offset:offset+maxDims], ap.strides)
+			} else {
+				apStrides, _ := BroadcastStrides(shape, ap.shape, it.strides[offset:offset+maxDims], ap.strides)
+				copy(it.strides[offset:offset+maxDims], apStrides)
+				ReturnInts(apStrides) // Borrowed in BroadcastStrides but returned here - dangerous pattern?
+			}
 			nBlocks++
 		}
 		ap2 := MakeAP(it.shape[:maxDims], it.strides[offset:offset+maxDims], ap.o, ap.Δ)
